@@ -40,7 +40,7 @@ func vpBuildRawNode(ro vpRawOpts) (*RawNode, *vpNode) {
 	for i := 0; i < n; i++ {
 		to := vpU64()
 		k.add(vpAnd(to != r.id, to != None))
-		typ := []pb.MessageType{pb.MsgApp, pb.MsgHeartbeat, pb.MsgVote}[vpChoose(3)]
+		typ := []pb.MessageType{pb.MsgApp, pb.MsgHeartbeat, pb.MsgVote}[i%3]
 		r.msgs = append(r.msgs, &pb.Message{Type: typ.Enum(), To: new(to), From: new(r.id), Term: new(r.Term), Index: new(vpU64()), LogTerm: new(vpU64()), Commit: new(vpU64())})
 	}
 	// pending promises; self-addressed ones are what the node queues for itself
@@ -63,7 +63,7 @@ func vpBuildRawNode(ro vpRawOpts) (*RawNode, *vpNode) {
 		} else {
 			to := vpU64()
 			k.add(vpAnd(to != r.id, to != None))
-			typ := []pb.MessageType{pb.MsgAppResp, pb.MsgVoteResp}[vpChoose(2)]
+			typ := []pb.MessageType{pb.MsgAppResp, pb.MsgVoteResp}[i%2]
 			m = &pb.Message{Type: typ.Enum(), To: new(to), From: new(r.id), Term: new(r.Term), Index: new(vpU64()), Reject: new(vpBool())}
 		}
 		r.msgsAfterAppend = append(r.msgsAfterAppend, m)
@@ -87,6 +87,13 @@ func vpBuildRawNode(ro vpRawOpts) (*RawNode, *vpNode) {
 	if ro.async {
 		// asynchronous mode never hands out unstable entries for application
 		k.add(l.applying < u.offset)
+	} else {
+		// synchronous mode: Advance has acknowledged the snapshot handed out by
+		// the previous Ready, so none is "in progress" when the next Ready is taken
+		k.add(!u.snapshotInProgress)
+		// ... and everything handed out earlier has been persisted: the
+		// in-progress part of the unstable log is in storage
+		k.add(u.offsetInProgress <= ms.ents[0].GetIndex()+uint64(len(ms.ents)))
 	}
 	k.assume()
 	return rn, nd
@@ -138,6 +145,11 @@ func vpReadyCell(ro vpRawOpts) {
 	rd := rn.Ready()
 
 	vpObserve("ready", uint64(len(rd.Entries)), uint64(len(rd.CommittedEntries)), uint64(len(rd.Messages)), vpB2U(rd.HardState != nil), vpB2U(rd.Snapshot != nil), vpB2U(rd.MustSync))
+	// the representation invariant holds right after Ready (before the
+	// application touches storage)
+	ki := &vpConds{post: true}
+	vpInvInto(ki, r)
+	ki.assertEach("Inv/post")
 	// ---- unstable entries (C05-D2, C15-W5) ----
 	nNew := preOff + uint64(len(preUnst)) - preInProg
 	vpAssert(uint64(len(rd.Entries)) == nNew, "D2/ready-entries-are-all-not-yet-handed-out")
@@ -327,21 +339,44 @@ func vpReadyCell(ro vpRawOpts) {
 		}
 		vpAssert(len(rn.stepsOnAdvance) == 0, "D3/no-steps-on-advance-in-async-mode")
 	}
-	ki := &vpConds{post: true}
-	vpInvInto(ki, r)
-	ki.assertEach("Inv/post")
 }
 
-func vpRawOptsFor(role StateType, async bool) vpRawOpts {
-	o := vpOpts{role: role, shapes: []int{0}, ls: 1, lu: 2, unstSnap: role == StateFollower}
-	if role == StateLeader {
-		o.leaderPr = true
-		o.symPeers = 1
-		o.inflPeers = 1
+// vpRawOptsFor: variant 0 "messages" (pending queues, no size limits, no
+// snapshot), 1 "apply" (symbolic size quota, no pending messages), 2
+// "snapshot" (pending unstable snapshot, followers only).
+func vpRawOptsVar(role StateType, async bool, variant int) vpRawOpts {
+	o := vpOpts{role: role, shapes: []int{0}, ls: 0, lu: 2, noSizeLimit: true, concBase: true, plainData: true}
+	ro := vpRawOpts{o: o, async: async, maxMsgs: 1, maxAfter: 2}
+	switch variant {
+	case 1:
+		ro.o.ls, ro.o.lu = 1, 1
+		ro.o.noSizeLimit = false
+		ro.maxMsgs, ro.maxAfter = 0, 0
+	case 2:
+		ro.o.unstSnap = true
+		ro.o.lu = 1
+		ro.maxMsgs, ro.maxAfter = 0, 1
 	}
-	return vpRawOpts{o: o, async: async, maxMsgs: 1, maxAfter: 2}
+	if role == StateLeader {
+		ro.o.leaderPr = false
+		// the leader's cells are the largest (self-acknowledgements are stepped
+		// by Advance): one unstable entry, at most one pending promise
+		ro.o.lu = 1
+		ro.maxMsgs = 0
+		if ro.maxAfter > 1 {
+			ro.maxAfter = 1
+		}
+	}
+	return ro
 }
 
+func vpRawOptsFor(role StateType, async bool) vpRawOpts { return vpRawOptsVar(role, async, 0) }
+
+func vpH_raw_ReadyApply_sync_F()  { vpReadyCell(vpRawOptsVar(StateFollower, false, 1)) }
+func vpH_raw_ReadyApply_async_F() { vpReadyCell(vpRawOptsVar(StateFollower, true, 1)) }
+func vpH_raw_ReadyApply_sync_L()  { vpReadyCell(vpRawOptsVar(StateLeader, false, 1)) }
+func vpH_raw_ReadySnap_sync_F()   { vpReadyCell(vpRawOptsVar(StateFollower, false, 2)) }
+func vpH_raw_ReadySnap_async_F()  { vpReadyCell(vpRawOptsVar(StateFollower, true, 2)) }
 func vpH_raw_Ready_sync_F()  { vpReadyCell(vpRawOptsFor(StateFollower, false)) }
 func vpH_raw_Ready_sync_C()  { vpReadyCell(vpRawOptsFor(StateCandidate, false)) }
 func vpH_raw_Ready_sync_L()  { vpReadyCell(vpRawOptsFor(StateLeader, false)) }
@@ -356,6 +391,7 @@ func vpH_raw_Ready_async_L() { vpReadyCell(vpRawOptsFor(StateLeader, true)) }
 func vpRestart(maxN int) {
 	k := &vpConds{}
 	raftLogger = vpLog
+	vpConcreteBase = false
 	ms := vpStorage(maxN, k, false)
 	n := uint64(len(ms.ents) - 1)
 	s := ms.ents[0].GetIndex()
